@@ -11,7 +11,13 @@ import (
 	"strings"
 	"sync"
 
+	"github.com/gogo/protobuf/proto"
+
+	"github.com/tendermint/tendermint/consensus"
 	"github.com/tendermint/tendermint/crypto/merkle"
+	"github.com/tendermint/tendermint/crypto/tmhash"
+	tmcons "github.com/tendermint/tendermint/proto/tendermint/consensus"
+	tmproto "github.com/tendermint/tendermint/proto/tendermint/types"
 	"github.com/tendermint/tendermint/types"
 
 	"verifharness/core"
@@ -102,9 +108,63 @@ func verifyClass(err error) string {
 func execCase(c core.Case) []string {
 	var out []string
 	var ps *types.PartSet
+	var cst *consensus.VerifPartsState
+	defer func() {
+		if cst != nil {
+			cst.Stop()
+		}
+	}()
 	for _, op := range c.Ops {
 		m := kv(op)
 		switch strings.Fields(op)[0] {
+		case "cstate":
+			if cst != nil {
+				cst.Stop()
+				cst = nil
+			}
+			h, _ := strconv.ParseInt(m["h"], 10, 64)
+			mx, _ := strconv.ParseInt(m["max"], 10, 64)
+			var hdr *types.PartSetHeader
+			if m["total"] != "none" {
+				t, _ := strconv.Atoi(m["total"])
+				hdr = &types.PartSetHeader{Total: uint32(t), Hash: unhx(m["root"])}
+			}
+			st, err := consensus.VerifNewPartsState(h, hdr, mx)
+			if err != nil {
+				out = append(out, "bad-op")
+				break
+			}
+			cst = st
+			out = append(out, "ok")
+		case "cpart":
+			if cst == nil {
+				out = append(out, "bad-op")
+				break
+			}
+			h, _ := strconv.ParseInt(m["h"], 10, 64)
+			rd, _ := strconv.ParseInt(m["r"], 10, 32)
+			idx, _ := strconv.Atoi(m["idx"])
+			part := &types.Part{Index: uint32(idx), Bytes: unhx(m["bytes"]), Proof: parseProof(m)}
+			out = append(out, consPart(cst, h, int32(rd), part))
+		case "cdone":
+			if cst == nil {
+				out = append(out, "bad-op")
+				break
+			}
+			pstr := "noparts"
+			if p := cst.Parts(); p != nil {
+				pstr = fmt.Sprintf("complete=%v count=%d size=%d", p.IsComplete(), p.Count(), p.ByteSize())
+			}
+			b := "nil"
+			if blk := cst.Block(); blk != nil {
+				// the bytes the block was decoded from, recovered by re-encoding it
+				if pb, err := blk.ToProto(); err == nil {
+					if bz, err := proto.Marshal(pb); err == nil {
+						b = hx(tmhash.Sum(bz))
+					}
+				}
+			}
+			out = append(out, pstr+" block="+b)
 		case "root":
 			out = append(out, hx(merkle.HashFromByteSlices(unhxList(m["items"]))))
 		case "proofs":
@@ -336,6 +396,54 @@ func execCase(c core.Case) []string {
 	return out
 }
 
+// consPart: a block part message as the consensus reactor handles it — encoded for the wire,
+// decoded (MsgFromProto), ValidateBasic, then the real State.addProposalBlockPart.
+func consPart(cst *consensus.VerifPartsState, h int64, rd int32, part *types.Part) (res string) {
+	defer func() {
+		if r := recover(); r != nil {
+			res = "panic"
+		}
+	}()
+	pb, err := consensus.MsgToProto(&consensus.BlockPartMessage{Height: h, Round: rd, Part: part})
+	if err != nil {
+		return "err-validate"
+	}
+	bz, err := proto.Marshal(pb)
+	if err != nil {
+		return "err-validate"
+	}
+	var pm tmcons.Message
+	if err := proto.Unmarshal(bz, &pm); err != nil {
+		return "err-validate"
+	}
+	msg, err := consensus.MsgFromProto(&pm)
+	if err != nil {
+		return "err-validate"
+	}
+	if err := msg.ValidateBasic(); err != nil {
+		return "err-validate"
+	}
+	added, err := cst.AddPart(msg.(*consensus.BlockPartMessage), "peer")
+	switch {
+	case err == types.ErrPartSetUnexpectedIndex:
+		return "err-index"
+	case err == types.ErrPartSetInvalidProof:
+		return "err-proof"
+	case err != nil && strings.Contains(err.Error(), "exceeds maximum block bytes"):
+		return fmt.Sprintf("too-big added=%v", added)
+	case err != nil && added:
+		return "complete-decode-err"
+	case err != nil:
+		return "err-other:" + err.Error()
+	case added && cst.Parts().IsComplete():
+		return "complete"
+	case added:
+		return "added"
+	default:
+		return "not-added"
+	}
+}
+
 func toTxs(l [][]byte) types.Txs {
 	t := make(types.Txs, len(l))
 	for i, b := range l {
@@ -367,6 +475,7 @@ func oracle(c core.Case, out []string) []core.Finding {
 	var curTotal int
 	var curRoot []byte
 	haveHdr := false
+	var cHeight, cMax, cSize int64
 	for i, op := range c.Ops {
 		m := kv(op)
 		switch strings.Fields(op)[0] {
@@ -375,6 +484,69 @@ func oracle(c core.Case, out []string) []core.Finding {
 			k, _ := strconv.Atoi(m["psize"])
 			pieces = split(data, k)
 			curTotal, curRoot, haveHdr = len(pieces), merkle.HashFromByteSlices(pieces), true
+		case "cstate":
+			cHeight, _ = strconv.ParseInt(m["h"], 10, 64)
+			cMax, _ = strconv.ParseInt(m["max"], 10, 64)
+			cSize = 0
+			pieces, data = nil, nil
+			if m["items"] != "" {
+				pieces = unhxList(m["items"])
+				data = bytes.Join(pieces, nil)
+			}
+			t, _ := strconv.Atoi(m["total"])
+			genuineHdr = pieces != nil && m["total"] != "none" && t == len(pieces) && bytes.Equal(unhx(m["root"]), merkle.HashFromByteSlices(pieces))
+		case "cpart":
+			acc := out[i] == "added" || out[i] == "complete" || out[i] == "too-big added=true" || out[i] == "complete-decode-err"
+			if acc {
+				cSize += int64(len(unhx(m["bytes"])))
+			}
+			if strings.HasPrefix(out[i], "too-big") && cSize <= cMax {
+				fs = append(fs, core.Finding{Fingerprint: "consensus.addProposalBlockPart.rejects-parts-within-MaxBytes",
+					Desc: fmt.Sprintf("the accepted parts hold %d bytes, the limit is %d, yet the part set is refused as too big: a block of exactly the maximum size can never be proposed", cSize, cMax)})
+			}
+			if (out[i] == "added" || out[i] == "complete") && cSize > cMax {
+				fs = append(fs, core.Finding{Fingerprint: "consensus.addProposalBlockPart.accepts-parts-above-MaxBytes",
+					Desc: fmt.Sprintf("the accepted parts hold %d bytes, above the limit %d, and the part was accepted without error", cSize, cMax)})
+			}
+			if !acc {
+				continue
+			}
+			h, _ := strconv.ParseInt(m["h"], 10, 64)
+			rd, _ := strconv.ParseInt(m["r"], 10, 64)
+			if h != cHeight {
+				fs = append(fs, core.Finding{Fingerprint: "consensus.addProposalBlockPart.accepts-part-of-other-height",
+					Desc: fmt.Sprintf("a block part message for height %d was added to the proposal parts of height %d", h, cHeight)})
+			}
+			if h < 0 || rd < 0 {
+				fs = append(fs, core.Finding{Fingerprint: "consensus.BlockPartMessage.invalid-message-reaches-part-set",
+					Desc: fmt.Sprintf("a block part message with height %d round %d was added", h, rd)})
+			}
+			if genuineHdr {
+				idx, _ := strconv.Atoi(m["idx"])
+				if idx >= len(pieces) || !bytes.Equal(pieces[idx], unhx(m["bytes"])) {
+					fs = append(fs, core.Finding{Fingerprint: "partset.AddPart.accepts-wrong-position",
+						Desc: fmt.Sprintf("addProposalBlockPart accepted bytes %s at slot %d which is not the %d-th piece of the committed data", m["bytes"], idx, idx)})
+				}
+			}
+			if out[i] == "complete-decode-err" && genuineHdr {
+				fs = append(fs, core.Finding{Fingerprint: "consensus.addProposalBlockPart.completed-set-does-not-decode",
+					Desc: "the parts of a genuine block were all accepted but the reassembled bytes do not decode to a block"})
+			}
+		case "cdone":
+			if !genuineHdr || data == nil {
+				continue
+			}
+			if j := strings.Index(out[i], "block="); j >= 0 {
+				b := out[i][j+6:]
+				if b != "nil" && b != hx(tmhash.Sum(data)) {
+					fs = append(fs, core.Finding{Fingerprint: "consensus.addProposalBlockPart.decodes-block-other-than-committed",
+						Desc: "the proposal block consensus decoded from the completed parts is not the block the part-set header commits to"})
+				}
+				if b == "nil" && strings.HasPrefix(out[i], "complete=true") && !strings.Contains(strings.Join(out[:i], " "), "too-big") {
+					fs = append(fs, core.Finding{Fingerprint: "consensus.addProposalBlockPart.complete-without-block",
+						Desc: "all parts of the committed block were accepted within the size limit but no proposal block was set"})
+				}
+			}
 		case "hasheader":
 			t, _ := strconv.Atoi(m["total"])
 			same := haveHdr && t == curTotal && bytes.Equal(unhx(m["root"]), curRoot)
@@ -1107,6 +1279,133 @@ func genLeaves(r *rand.Rand, emit func(core.Case), n int) {
 	}
 }
 
+// a block that passes ValidateBasic, and its wire bytes
+func genBlock(r *rand.Rand, h int64) (*types.Block, []byte) {
+	nt := r.Intn(6)
+	txs := make([]types.Tx, nt)
+	for i := range txs {
+		txs[i] = rbytes(r, 1+r.Intn(30))
+	}
+	blk := types.MakeBlock(h, txs, &types.Commit{}, nil)
+	blk.ChainID = "c10"
+	blk.ProposerAddress = rbytes(r, 20)
+	blk.AppHash = rbytes(r, r.Intn(9))
+	if err := blk.ValidateBasic(); err != nil {
+		panic("generator: block does not validate: " + err.Error())
+	}
+	pb, err := blk.ToProto()
+	if err != nil {
+		panic(err)
+	}
+	bz, err := proto.Marshal(pb)
+	if err != nil {
+		panic(err)
+	}
+	return blk, bz
+}
+
+// genCons: the consumer of parts. A consensus State expecting the parts of a real block (cut by
+// MakePartSet or at arbitrary points, empty pieces included) receives block part messages through
+// the wire glue: any order, repetitions, other heights, negative rounds, mutated proofs, transplants,
+// size limits at the boundary; what it decodes must be the committed block.
+func genCons(r *rand.Rand, emit func(core.Case), n int) {
+	for c := 0; c < n; c++ {
+		h := int64(1 + r.Intn(5))
+		blk, bz := genBlock(r, h)
+		// decode/re-encode must be the identity for the comparison of `block=`
+		var pbb tmproto.Block
+		if err := proto.Unmarshal(bz, &pbb); err != nil {
+			panic(err)
+		}
+		b2, err := types.BlockFromProto(&pbb)
+		if err != nil {
+			panic(err)
+		}
+		pb2, _ := b2.ToProto()
+		if bz2, _ := proto.Marshal(pb2); !bytes.Equal(bz2, bz) {
+			mutHist["block-reencode-not-identity"]++
+			continue
+		}
+		var leaves [][]byte
+		if r.Intn(2) == 0 {
+			psz := uint32(8 + r.Intn(60))
+			ps := blk.MakePartSet(psz)
+			for i := 0; i < int(ps.Total()); i++ {
+				leaves = append(leaves, ps.GetPart(i).Bytes)
+			}
+			mutHist["cons-makepartset"]++
+		} else {
+			rest := bz
+			for len(rest) > 0 {
+				if r.Intn(6) == 0 {
+					leaves = append(leaves, []byte{})
+					continue
+				}
+				k := 1 + r.Intn(60)
+				if k > len(rest) {
+					k = len(rest)
+				}
+				leaves = append(leaves, rest[:k])
+				rest = rest[k:]
+			}
+			if r.Intn(4) == 0 {
+				leaves = append(leaves, []byte{})
+			}
+			mutHist["cons-irregular-cut"]++
+		}
+		k := len(leaves)
+		root, proofs := merkle.ProofsFromByteSlices(leaves)
+		mx := int64(1 << 20)
+		switch r.Intn(6) {
+		case 0:
+			mx = int64(len(bz))
+		case 1:
+			mx = int64(len(bz)) - 1 - int64(r.Intn(10))
+		}
+		tot := strconv.Itoa(k)
+		if r.Intn(15) == 0 {
+			tot = "none"
+		}
+		ops := []string{fmt.Sprintf("cstate h=%d max=%d total=%s root=%s items=%s", h, mx, tot, hx(root), hxList(leaves))}
+		cp := func(hh int64, rr int, idx int, b []byte, p merkle.Proof) string {
+			return fmt.Sprintf("cpart h=%d r=%d idx=%d bytes=%s pidx=%d ptotal=%d lh=%s aunts=%s", hh, rr, idx, hx(b), p.Index, p.Total, hx(p.LeafHash), hxList(p.Aunts))
+		}
+		order := r.Perm(k)
+		for _, i := range order {
+			p := cloneProof(proofs[i])
+			for r.Intn(4) == 0 { // noise before the genuine part
+				hh, rr, idx, b, q := h, r.Intn(3), i, leaves[i], cloneProof(proofs[i])
+				switch r.Intn(7) {
+				case 0:
+					hh = h + int64(1+r.Intn(2))
+				case 1:
+					hh = h - 1
+				case 2:
+					rr = -1 - r.Intn(2)
+				case 3:
+					hh = -1
+				case 4:
+					idx = r.Intn(k + 1)
+				case 5:
+					b = rbytes(r, len(b)+r.Intn(2))
+				case 6:
+					q, _ = mutateProof(r, q, proofs[r.Intn(k)])
+				}
+				ops = append(ops, cp(hh, rr, idx, b, q))
+			}
+			ops = append(ops, cp(h, r.Intn(3), i, leaves[i], p))
+			if r.Intn(5) == 0 {
+				ops = append(ops, cp(h, r.Intn(3), i, leaves[i], p)) // repetition
+			}
+			if r.Intn(6) == 0 {
+				ops = append(ops, "cdone")
+			}
+		}
+		ops = append(ops, "cdone")
+		emit(core.Case{Kind: "consensus-parts", Ops: ops})
+	}
+}
+
 func main() {
 	core.Main(core.Prop{
 		ID:     "C10",
@@ -1123,18 +1422,19 @@ func main() {
 			genHuge(r, emit, n/40)
 			genVirtual(r, emit, n/8)
 			genLeaves(r, emit, n/2)
+			genCons(r, emit, n/2)
 		},
 		Exec:   execCase,
 		Oracle: oracle,
 		NonTrivial: func(c core.Case, out []string) bool {
 			for _, o := range out {
-				if o == "ok" || o == "added" || strings.HasPrefix(o, "added=1") || strings.HasPrefix(o, "ok,") {
+				if o == "ok" || o == "added" || o == "complete" || strings.HasPrefix(o, "added=1") || strings.HasPrefix(o, "ok,") {
 					return true
 				}
 			}
 			return false
 		},
-		Rule: "random trees (0..50 items over a 4-letter alphabet so equal items occur) with genuine and mutated proofs (index/total/leaf-hash/aunt flips, drops, extras, short aunts, transplants between positions and trees, empty root); random data/part sizes with parts delivered in random order with repetitions, transplants between slots, rewritten proof index/total, lying header total; headers committing to arbitrary leaves (empty pieces included) with HasHeader queries against near headers and the completed set read back under random buffer-size schedules. Non-trivial = at least one accepted verify/add; distinct by hash of the op list",
+		Rule: "random trees (0..50 items over a 4-letter alphabet so equal items occur) with genuine and mutated proofs (index/total/leaf-hash/aunt flips, drops, extras, short aunts, transplants between positions and trees, empty root); random data/part sizes with parts delivered in random order with repetitions, transplants between slots, rewritten proof index/total, lying header total; headers committing to arbitrary leaves (empty pieces included) with HasHeader queries against near headers and the completed set read back under random buffer-size schedules; real blocks (MakePartSet or irregular cuts) delivered as block part messages through MsgToProto/MsgFromProto/ValidateBasic into the real State.addProposalBlockPart with other heights, negative rounds, junk and size limits at the boundary. Non-trivial = at least one accepted verify/add; distinct by hash of the op list",
 		Assumptions: []string{"SHA-256 is modelled as an arbitrary function H with fixed output length; soundness theorems conclude claim-or-explicit-collision",
 			"tmdriver instantiates H with a Lean SHA-256 so roots and aunts are byte-compared with the Go code"},
 		Extra: func() map[string]interface{} { return map[string]interface{}{"mutation_histogram": mutHist} },
